@@ -248,6 +248,27 @@ pub fn run_c03(w: &mut W) {
             }
             j += 1;
         }
+        // counts beyond the datagram limit, fully materialised (the parser accepts any slice)
+        for n in [max + 1, max + 2, 1500, 2000, 4096, if w.thorough { 65535 } else { 8191 }] {
+            if w.oneoff(j) {
+                let mut rng = w.begin_case(crate::worker::ONEOFF + j, "count-beyond-datagram");
+                let pkt = gen_case(&mut rng, version, n);
+                let wire = pkt.wire();
+                let mut sut = Sut::new(1);
+                let res = sut.parse(0, &wire);
+                let verdict = match res.as_slice() {
+                    [e] => check_fixed(&wire, e, &mut st).and_then(|len| if len == wire.len() { Ok(()) } else { Err(div("fixed", "length", format!("consumed {} want {}", len, wire.len()))) }),
+                    other => Err(div("fixed", "elements", format!("count {}: returned {:?}", n, other.iter().map(crate::observe::kind).collect::<Vec<_>>()))),
+                };
+                if let Err(d) = verdict {
+                    let mut small = Sut::new(1);
+                    small.ops.push((0, wire[..200.min(wire.len())].to_vec()));
+                    w.rep.violation(sig("C03", &d), &d, json!({"note": format!("V{} packet with count {} ({} bytes), regenerate from the case", version, n, wire.len())}));
+                }
+                w.rep.count("count_beyond_datagram_cases", 1);
+            }
+            j += 1;
+        }
         // counts above what fits: must be an error
         for n in [max + 1, 2000, 32768, 65535] {
             if w.oneoff(j) {
